@@ -108,7 +108,20 @@ func extra10C03(c *Ctx) {
 		if !ok {
 			return true
 		}
-		x, y, op, okO := core.Orient(be, func(e ast.Expr) bool { return selName(e) == "StatusCode" })
+		isStatus := func(e ast.Expr) bool {
+			if selName(e) == "StatusCode" {
+				return true
+			}
+			if id, isId := ast.Unparen(e).(*ast.Ident); isId { // a local that holds the status
+				if v, isV := info.Uses[id].(*types.Var); isV {
+					if rhs, _, cnt := singleDef(info, f.Body, v); cnt == 1 && rhs != nil && selName(rhs) == "StatusCode" {
+						return true
+					}
+				}
+			}
+			return false
+		}
+		x, y, op, okO := core.Orient(be, isStatus)
 		if !okO {
 			return true
 		}
